@@ -113,6 +113,9 @@ func applySet(skel *Skeleton, op Op, path *Path) error {
 	if len(op.Value) == 0 {
 		return fmt.Errorf("%w: SET requires Value", ErrInvalidOp)
 	}
+	if err := validateValue(op.Value); err != nil {
+		return err
+	}
 
 	cur, err := path.Resolve(skel)
 	if err != nil {
